@@ -10,4 +10,9 @@ for p in sys.argv[1:]:
     for b in j['instances'] + j['poly']:
         if not b.get('is_closure'):
             fns.setdefault(b['path'].replace('mrecordlog::', ''), {'sig': None, 'parent': (b.get('parent') or '').replace('mrecordlog::', '')})
-json.dump({'_comment': 'functions of the tree the rules were confirmed on (path -> signature, parent); any other crate-local fn is an unknown helper and is inlined into its callers before analysis, unless it takes the place of a listed function that disappeared (same parent, same signature = a rename) (checker/inline.py)', 'fns': {k: fns[k] for k in sorted(fns)}}, sys.stdout, indent=0)
+adts = {}
+for p in sys.argv[1:]:
+    j = json.load(open(p))
+    for a in j['adts']:
+        adts.setdefault(a['path'].replace('mrecordlog::', ''), [{'name': v['name'], 'fields': [[f['name'], f['ty']] for f in v['fields']]} for v in a['variants']])
+json.dump({'adts': {k: adts[k] for k in sorted(adts)}, '_comment': 'functions of the tree the rules were confirmed on (path -> signature, parent); any other crate-local fn is an unknown helper and is inlined into its callers before analysis, unless it takes the place of a listed function that disappeared (same parent, same signature = a rename) (checker/inline.py)', 'fns': {k: fns[k] for k in sorted(fns)}}, sys.stdout, indent=0)
